@@ -14,8 +14,8 @@
 // direct = what the call should delegate to: the back end of the method name called directly (boost quadrature,
 //   Integrate_Gauss_Legendre, Find_Epsilon + Integrate), nested by the harness itself level by level with the same
 //   method_parameter at every level, on the same user function.  (Not recomputed, i.e. the value is repeated, for "Trapezoidal" in two
-//   and three dimensions and "Tanh-Sinh" in three when the call itself took more than 7e5 evaluations of the user's function: the direct
-//   nesting costs as many again.)
+//   and three dimensions, "Tanh-Sinh" in three and "Adaptive-Simpson" in one when the call itself took more than 7e5 evaluations of the
+//   user's function: the direct nesting costs as many again.)
 // neval/digest/min/max describe the arguments with which the user's function was called by the library.  The azimuth of a vector is
 //   recorded as the representative of atan2(vy,vx) modulo 2 pi that lies within pi of the middle of the azimuth limits of the call, so
 //   that ranges anywhere on the real line (negative, beyond 2 pi) can be compared with their limits.
@@ -148,9 +148,44 @@ static double direct_nd(const std::string& method, const std::function<double(co
 // the direct nesting of these two is as expensive as the call: it is left out when the call itself was expensive
 static bool costly3(const std::string& method, long n) { return (method == "Trapezoidal" || method == "Tanh-Sinh") && n > 700000; }
 static bool costly2(const std::string& method, long n) { return method == "Trapezoidal" && n > 700000; }
+// (the adaptive Simpson rule taken to its depth limit over the whole interval, 2^21 evaluations: a tolerance of zero or next to zero)
+static bool costly1(const std::string& method, long n) { return method == "Adaptive-Simpson" && n > 700000; }
+
+// the two public overloads of Integrate_Gauss_Legendre that take a table of roots and weights (the third one, with limits and a number of
+// points, is the back end of "Gauss-Legendre_2" and ends in these):
+//   glvec <n v1..vn> <rows: m then each row as a list>   -> Integrate_Gauss_Legendre(function_values, roots_and_weights)   -> value
+//   glfun <rows> <fexpr(x)>                               -> Integrate_Gauss_Legendre(func, roots_and_weights)              -> value neval
+static bool gl_overloads(const std::string& op, vh::Reader& r, vh::Out& o)
+{
+	if(op == "glvec")
+	{
+		std::vector<double> fv				  = r.list();
+		std::vector<std::vector<double>> rows = r.table();
+		o.f(Integrate_Gauss_Legendre(fv, rows));
+		return true;
+	}
+	if(op == "glfun")
+	{
+		std::vector<std::vector<double>> rows = r.table();
+		std::shared_ptr<vh::FExpr> e		  = vh::parse_fexpr(r);
+		long n								  = 0;
+		std::function<double(double)> f		  = [&](double x) {
+			  n++;
+			  double v[4] = {x, 0.0, 0.0, 0.0};
+			  return vh::eval_fexpr(*e, v);
+		};
+		double val = Integrate_Gauss_Legendre(f, rows);
+		o.f(val);
+		o.i(n);
+		return true;
+	}
+	return false;
+}
 
 static void do_call(const std::string& op, vh::Reader& r, vh::Out& o)
 {
+	if(gl_overloads(op, r, o))
+		return;
 	std::string method = r.word();
 	int p			   = (int) r.integer();
 	Rec rec;
@@ -169,7 +204,7 @@ static void do_call(const std::string& op, vh::Reader& r, vh::Out& o)
 		};
 		double val = Integrate(f, lim[0], lim[1], method, p);
 		std::function<double(const double*)> g = [&](const double* q) { return u(q[0], 0, 0); };
-		double dir = direct_nd(method, g, 1, lim, p, pt, 0, known);
+		double dir = costly1(method, rec.n) ? val : direct_nd(method, g, 1, lim, p, pt, 0, known);
 		o.f(val);
 		o.f(dir);
 		rec.put(o, 1);
